@@ -93,7 +93,10 @@ def plan_units(prop, modname, tier):
         if getattr(c, "unbounded", True):
             for sh in getattr(c, "proof_shapes", [None]):
                 units.append((key, sh, "unbounded"))
-        for sh in shapes_for(c, tier):
+        # a contract shared with other properties is explored at thorough depth only by the property whose module defines
+        # it; where it is imported it runs with its quick shapes (otherwise every thorough run repeats all of them)
+        own = getattr(c, "__module__", modname) == modname
+        for sh in shapes_for(c, tier if own else "quick"):
             units.append((key, sh, "bounded"))
     return units
 
